@@ -33,7 +33,7 @@ from common import InfraError, Timer, match_known, write_evidence, write_replay
 
 PROP = "C05"
 LEAN_TARGETS = ["PulserModel.Hamiltonian", "Proofs.Hamiltonian", "Properties.C05", "pm_ham"]
-N_CASES = {"quick": 300, "thorough": 6000}
+N_CASES = {"quick": 300, "thorough": 3000}      # (thorough about 10 min)
 
 # documented conventions (docs/source/conventions.md); also held by the Lean model and
 # compared with the live code at the start of every run (`consts`)
